@@ -55,6 +55,7 @@ fn family(st: &mut Stats, name: &str, pats: &[Vec<char>], texts: &[Vec<char>]) {
             let has_lit = p.iter().any(|&c| c != '*');
             for (t, ts) in texts.iter().zip(texts_s.iter()) {
                 let want = glob_ref(p, t);
+                let _call = crate::report::enter(format!("wildcard_match({:?}, {:?})", ps, ts).as_bytes());
                 let got = std::panic::catch_unwind(|| wildcard_match(&ps, ts));
                 s.evaluations += 1;
                 s.states += 1;
@@ -109,6 +110,7 @@ fn dispatch_family(st: &mut Stats, maxlen: usize) {
         let req = format!("GET {} HTTP/1.1\r\nHost: {}\r\nConnection: close\r\n\r\n", target, host);
         let sock = ScriptSock::new("127.0.0.1:9".parse().unwrap(), vec![Step::Seg(req.into_bytes()), Step::Eof]);
         let s2 = sock.clone();
+        let _call = crate::report::enter(format!("dispatch: target {:?} host {:?}", target, host).as_bytes());
         std::panic::catch_unwind(std::panic::AssertUnwindSafe(|| parts.serve(Stream::Tcp(TcpStream::Script(s2))))).ok()?;
         let out = sock.lock().unwrap().out.clone();
         let g = read_responses(&out).ok()?;
